@@ -91,10 +91,11 @@ def add_computed_field(*args, resources=None, **kw):
                 resource['schema']['fields'].extend(new_fields)
         yield package.pkg
 
-        for f in fields:
-            target = f['target']
-            if isinstance(target, str):
-                f['target'] = dict(name=target)
+        # normalise targets on a copy: the caller's specification may be used to build another step
+        fields = [
+            dict(f, target=dict(name=f['target'])) if isinstance(f['target'], str) else f
+            for f in fields
+        ]
 
         for resource in package:
             if not matcher.match(resource.res.name):
